@@ -42,7 +42,9 @@ reg(part('all_memchr', 'src/arch/all/memchr.rs', 'arch::all::memchr', deref_iden
 reg(part('all_mod', 'src/arch/all/mod.rs', 'arch::all'))
 reg(part('all_rabinkarp', 'src/arch/all/rabinkarp.rs', 'arch::all::rabinkarp',
          keep_derives=['Clone', 'Copy', 'PartialEq', 'Eq', 'Default']))
-reg(part('all_twoway', 'src/arch/all/twoway.rs', 'arch::all::twoway'))
+# X8 (DESIGN 2.1, ref pattern in a match arm): `Some(&first_byte) => first_byte` -> `Some(first_byte) => *first_byte`
+reg(part('all_twoway', 'src/arch/all/twoway.rs', 'arch::all::twoway',
+         rewrites=[[['Some', '(', '&', 'first_byte', ')', '=>', 'first_byte'], 'Some(first_byte) => *first_byte', 'X8']]))
 reg(part('all_packedpair', 'src/arch/all/packedpair/mod.rs', 'arch::all::packedpair'))
 reg(part('all_default_rank', 'src/arch/all/packedpair/default_rank.rs', 'arch::all::packedpair::default_rank'))
 reg(part('generic_packedpair', 'src/arch/generic/packedpair.rs', 'arch::generic::packedpair'))
